@@ -2,10 +2,10 @@ package main
 
 import (
 	"bytes"
-	"os"
 	"encoding/json"
 	"fmt"
 	"math/rand"
+	"os"
 	"sync"
 	"time"
 
